@@ -114,3 +114,89 @@ class Explorer:
         jobs = list(self.stack)
         self.stack.clear()
         return jobs
+
+
+# ------------------------------------------------------------------ unbounded exploration with sleep sets
+ALWAYS_DEPENDENT = {'start', 'tjoin', 'tjoin-timed', 'begin', 'do', 'sleep'}
+
+
+def independent(op1, op2):
+    """Static independence for POR mode (runtime.POR = True: every segment touches exactly one synchronisation object):
+    two operations commute iff they are on different objects; thread start/join, do() entry are dependent with everything."""
+    if op1[0] in ALWAYS_DEPENDENT or op2[0] in ALWAYS_DEPENDENT:
+        return False
+    return op1[1] != op2[1]
+
+
+class SleepSetExplorer:
+    """All interleavings modulo independence (sleep sets, no preemption bound).  Only sound with runtime.POR = True."""
+
+    def __init__(self, make_harness, on_execution, max_steps=5000):
+        self.make_harness, self.on_execution, self.max_steps = make_harness, on_execution, max_steps
+        self.stack = [([], {})]         # (prefix of thread ids, sleep set at the end of the prefix {tid: op})
+        self.executions = 0
+        self.blocked = 0
+        self.complete_traces = 0
+
+    def step(self):
+        prefix, sleep0 = self.stack.pop()
+        rec = []                        # per point: (enabled [(tid, op)], chosen tid, sleep set before or None inside the prefix)
+        state = {'sleep': dict(sleep0), 'blocked': False}
+
+        def chooser(rtm, cur, enabled):
+            i = len(rec)
+            ena = [(x.tid, x.pending) for x in enabled]
+            if i < len(prefix):
+                thr = next((x for x in enabled if x.tid == prefix[i]), None)
+                if thr is None:
+                    rtm.end(('diverged', f'point {i}: thread {prefix[i]} not enabled'))
+                    return enabled[0]
+                rec.append((ena, thr.tid, None))
+                return thr
+            cand = [x for x in enabled if x.tid not in state['sleep']]
+            if not cand:
+                state['blocked'] = True
+                rtm.end(('sleep-blocked', None))
+                return enabled[0]
+            thr = cand[0]
+            rec.append((ena, thr.tid, dict(state['sleep'])))
+            oper = thr.pending
+            state['sleep'] = {t: o for t, o in state['sleep'].items() if independent(o, oper)}
+            return thr
+
+        rtm = runtime.Runtime(chooser, max_steps=self.max_steps)
+        runtime.RT = rtm
+        harness = self.make_harness(rtm)
+        exe = Execution()
+        exe.rt, exe.harness = rtm, harness
+        exe.outcome = rtm.run(harness.main)
+        if exe.outcome[0] == 'diverged':
+            raise ReplayDivergence(exe.outcome[1])
+        self.executions += 1
+        if state['blocked']:
+            self.blocked += 1
+        else:
+            self.complete_traces += 1
+            exe.rec = [(len(r[0]), 0, False, 0) for r in rec]
+            exe.choices = [r[1] for r in rec]
+            exe.preemptions = exe.switches = 0
+            exe.state_hashes = None
+            self.on_execution(exe)
+        for i in range(len(prefix), len(rec)):
+            ena, chosen, slp = rec[i]
+            if slp is None:
+                continue
+            explored = {chosen: dict(ena)[chosen]}
+            for tid, oper in ena:
+                if tid == chosen or tid in slp:
+                    continue
+                new_sleep = {t: o for t, o in {**slp, **explored}.items() if independent(o, oper)}
+                self.stack.append(([r[1] for r in rec[:i]] + [tid], new_sleep))
+                explored[tid] = oper
+
+    def run(self, cap=None):
+        while self.stack:
+            self.step()
+            if cap and self.executions >= cap:
+                return not self.stack
+        return True
